@@ -496,6 +496,14 @@ fn dump(tcx: TyCtxt<'_>) {
             }
             let body = tcx.optimized_mir(ldid);
             bodies.push(cx.body_json(did, kind, body));
+            // promoted constants (`&Some(true)`, `&QueryMsg::CurrentEpoch {}` ...) as bodies of their own
+            let proms = tcx.promoted_mir(ldid);
+            for (pi, pb) in proms.iter_enumerated() {
+                let js = cx.body_json(did, "promoted", pb);
+                let idp = format!("\"id\":{}", esc(&cx.def_id_str(did)));
+                let idn = format!("\"id\":{}", esc(&format!("{}::promoted[{}]", cx.def_id_str(did), pi.as_usize())));
+                bodies.push(js.replacen(&idp, &idn, 1));
+            }
         }
     }
     let mut s = String::new();
